@@ -99,6 +99,13 @@ impl<'de, R: Reader<'de>> Parser<R> {
     fn get_many_index_unchecked(&mut self, midx: &MultiIndex, strbuf: &mut Vec<u8>, out: &mut Vec<Option<LazyValue<'de>>>, remain: &mut usize) -> (res: Result<()>)
         requires false,
     { unimplemented!() }
+    // non-validating skipper: no grammar guarantee (C10 kernels give one only on well-formed input); a checked
+    // walker that relies on it cannot establish its postcondition
+    #[verifier::external_body]
+    pub fn skip_one_unchecked(&mut self) -> (res: Result<(&'de [u8], ParseStatus)>)
+        requires old(self).pinv(),
+        ensures final(self).pinv(), final(self).same_doc(old(self)), final(self).read.idx() >= old(self).read.idx(),
+    { unimplemented!() }
     // borrow-or-copy decoder: acceptance contract assumed here (unit `strings`)
     #[verifier::external_body]
     pub fn parse_str<'own>(&mut self, buf: &'own mut Vec<u8>) -> (res: Result<Reference<'de, 'own, str>>)
